@@ -20,7 +20,8 @@
    decodable scripts (C04_legacy_preimage_eq_streaming).
    "Computing a hash never modifies the transaction" is not a theorem (a pure model cannot alias): direct check only. *)
 From PV Require Import Base.Bytes Base.Outcome Base.Varint Gen.GenOpcodes Gen.GenSighashC04
-  Model.Push Model.Sighash Spec.SighashCore Model.SighashBridge Proofs.PushP Proofs.SighashP.
+  Model.Push Model.Sighash Spec.SighashCore Model.SighashBridge Model.SighashHistory Proofs.PushP Proofs.SighashP
+  Proofs.SighashHistoryP.
 Local Open Scope N_scope.
 
 (* ---- the script walk terminates: len(script) iterations always suffice ------------------------------ *)
@@ -184,6 +185,96 @@ Theorem C04_grs_single_sha :
      = Ret (be_decode (sha256 (bip143_preimage sha256 script (to_core t) idx (to_value u) ht))).
 Proof. exact grs_single_sha. Qed.
 Print Assumptions C04_grs_single_sha.
+
+(* ---- histories on ONE transaction object and ONE checker object (Model/SighashHistory.v) -----------------------
+   ops: observers (_signature_hash, _signature_for_hash_type_segwit, _segwit_signature_preimage, the three BIP143
+   midstates, tx.hash, tx.blanked_hash) and mutators (attribute assignment, append / pop / clear / del, list rebinding,
+   set_unspents) in ANY order.  state_after t ops = the fields the transaction holds after the mutators of ops. *)
+
+(* every observation = what a fresh checker computes from the CURRENT fields: independent of every earlier
+   observation (input index, hash type, script code, amount) and of the fields the transaction had before *)
+Theorem C04_history_independence :
+  forall (sha256 dsha256 : bytes -> bytes) (c : coin) (ops : list op) (t : tx) (k : nat) (o : observer),
+  nth_error ops k = Some (Observe o) ->
+  nth_error (run sha256 dsha256 c t ops) k = Some (observe sha256 dsha256 c (state_after t (firstn k ops)) o).
+Proof. exact history_observation. Qed.
+Print Assumptions C04_history_independence.
+
+(* an observer never changes the transaction (the model-level part of "computing a hash never modifies it") *)
+Theorem C04_observer_keeps_state :
+  forall (sha256 dsha256 : bytes -> bytes) (c : coin) (t : tx) (o : observer),
+  fst (step sha256 dsha256 c t (Observe o)) = t.
+Proof. exact observer_keeps_state. Qed.
+Print Assumptions C04_observer_keeps_state.
+
+(* the same observations in another order give the same results, re-ordered *)
+Theorem C04_observation_order_irrelevant :
+  forall (sha256 dsha256 : bytes -> bytes) (c : coin) (t : tx) (l l' : list observer),
+  Permutation.Permutation l l' ->
+  Permutation.Permutation (run sha256 dsha256 c t (map Observe l)) (run sha256 dsha256 c t (map Observe l')).
+Proof. exact observations_permute. Qed.
+Print Assumptions C04_observation_order_irrelevant.
+
+(* the BIP143 digest asked at ANY point of ANY history = BIP143 on the fields of that moment (BTC, LTC, BCH classes) *)
+Theorem C04_history_bip143 :
+  forall (sha256 dsha256 : bytes -> bytes) (c : coin) (ops : list op) (t : tx) (k : nat)
+         (script : bytes) (idx : nat) (ht : N) (u : txout),
+  nth_error ops k = Some (Observe (ObsSegwit script idx ht)) ->
+  let t' := state_after t (firstn k ops) in
+  tx_wf t' -> (idx < length (tx_ins t'))%nat -> ht < 2 ^ 32 -> N.of_nat (length script) < 2 ^ 64 ->
+  nth_error (tx_unspents t') idx = Some (Some u) -> to_value u < 2 ^ 64 ->
+  c = BTC \/ c = LTC \/ c = BCH ->
+  nth_error (run sha256 dsha256 c t ops) k
+  = Some (Ret (HInt (be_decode (dsha256 (bip143_preimage dsha256 script (to_core t') idx (to_value u) ht))))).
+Proof. exact history_segwit_spec. Qed.
+Print Assumptions C04_history_bip143.
+
+Theorem C04_history_forkid_btg :
+  forall (sha256 dsha256 : bytes -> bytes) (ops : list op) (t : tx) (k : nat)
+         (script : bytes) (idx : nat) (ht : N) (u : txout),
+  nth_error ops k = Some (Observe (ObsSegwit script idx ht)) ->
+  let t' := state_after t (firstn k ops) in
+  tx_wf t' -> (idx < length (tx_ins t'))%nat -> ht < 2 ^ 32 -> N.of_nat (length script) < 2 ^ 64 ->
+  nth_error (tx_unspents t') idx = Some (Some u) -> to_value u < 2 ^ 64 ->
+  nth_error (run sha256 dsha256 BTG t ops) k
+  = Some (match forkid_preimage dsha256 FORKID_BTG script (to_core t') idx (to_value u) ht with
+          | None => Raise E_SCRIPT
+          | Some p => Ret (HInt (be_decode (dsha256 p)))
+          end).
+Proof. exact history_forkid_spec. Qed.
+Print Assumptions C04_history_forkid_btg.
+
+Theorem C04_history_grs :
+  forall (sha256 dsha256 : bytes -> bytes) (ops : list op) (t : tx) (k : nat)
+         (script : bytes) (idx : nat) (ht : N) (u : txout),
+  nth_error ops k = Some (Observe (ObsSegwit script idx ht)) ->
+  let t' := state_after t (firstn k ops) in
+  tx_wf t' -> (idx < length (tx_ins t'))%nat -> ht < 2 ^ 32 -> N.of_nat (length script) < 2 ^ 64 ->
+  nth_error (tx_unspents t') idx = Some (Some u) -> to_value u < 2 ^ 64 ->
+  nth_error (run sha256 dsha256 GRS t ops) k
+  = Some (Ret (HInt (be_decode (sha256 (bip143_preimage sha256 script (to_core t') idx (to_value u) ht))))).
+Proof. exact history_grs_spec. Qed.
+Print Assumptions C04_history_grs.
+
+Theorem C04_history_legacy :
+  forall (sha256 dsha256 : bytes -> bytes) (c : coin) (ops : list op) (t : tx) (k : nat)
+         (script : bytes) (idx : nat) (ht : N),
+  nth_error ops k = Some (Observe (ObsLegacy script idx ht)) ->
+  let t' := state_after t (firstn k ops) in
+  tx_wf t' -> (idx < length (tx_ins t'))%nat -> ht < 2 ^ 32 -> N.of_nat (length script) < 2 ^ 64 ->
+  c = BTC \/ c = LTC ->
+  nth_error (run sha256 dsha256 c t ops) k
+  = Some (Ret (HInt (be_decode (core_digest dsha256 (core_signature_hash_old script (to_core t') idx ht))))).
+Proof. exact history_legacy_spec. Qed.
+Print Assumptions C04_history_legacy.
+
+(* the seeded pattern is inside the theorem's domain: SINGLE for input 0, then SINGLE for input 1, one checker *)
+Example C04_history_example :
+  exists r0 r1,
+  run (fun b => b) (fun b => b) BTC witness_tx2
+      [Observe (ObsHashOutputs 3 0); Observe (ObsHashOutputs 3 1); Mutate PopOut; Observe (ObsHashOutputs 3 1)]
+  = [Ret (HBytes r0); Ret (HBytes r1); Ret HDone; Ret (HBytes zero32)] /\ r0 <> r1.
+Proof. eexists _, _. split; [vm_compute; reflexivity | vm_compute; discriminate]. Qed.
 
 (* ---- the hypotheses are satisfiable --------------------------------------------------------------------- *)
 Example C04_hypotheses_satisfiable :
